@@ -354,6 +354,120 @@ fn check_scale(c: &ScaleCase) -> CheckResult {
 
 /// exhaustive stage: every pair of sporadic tasks from a tiny parameter grid, every analysis, both
 /// choices of the analysed task, limits huge / = L / L-1
+// --- slow convergence (fixed points that the iteration approaches in > 10^4 steps) -----------
+
+#[derive(Clone, Debug, Serialize, Deserialize)]
+pub enum SlowBase {
+    /// unit-cost tasks with periods 2, 4, ..., 2^k: utilisation 1 - 2^-k
+    Pow2(u32),
+    /// unit-cost tasks with periods 2, 3, 7, 43: utilisation 1 - 1/1806
+    Sylvester,
+}
+
+#[derive(Clone, Debug, Serialize, Deserialize)]
+pub struct SlowCase {
+    pub base: SlowBase,
+    /// costs and periods of the light tasks are multiplied by this
+    pub mult: u64,
+    /// release jitter of the light tasks, in per-mille of their period
+    pub jitter_pm: Vec<u64>,
+    /// cost of the one heavy task (period 10^7)
+    pub heavy: u64,
+    pub limit: LimitMode,
+    pub wrap: Wrap,
+}
+
+fn slow_strategy(_tier: Tier) -> BoxedStrategy<SlowCase> {
+    (
+        prop_oneof![3 => (11u32..=14).prop_map(SlowBase::Pow2), 1 => Just(SlowBase::Sylvester)],
+        1u64..=3,
+        proptest::collection::vec(prop_oneof![3 => Just(0u64), 2 => 0u64..=1000], 14),
+        0u64..1000,
+        prop_oneof![3 => Just(LimitMode::Huge), 2 => Just(LimitMode::AtL), 2 => Just(LimitMode::BelowL)],
+        wrap_strategy(),
+    )
+        .prop_map(|(base, mult, jitter_pm, h, limit, wrap)| {
+            // heavy cost chosen so that L stays below about 7 * 10^5
+            let heavy = match base {
+                SlowBase::Pow2(k) => 3 + h * ((600_000u64 >> k).max(8)) / 1000,
+                SlowBase::Sylvester => 150 + h * 220 / 1000,
+            };
+            SlowCase { base, mult, jitter_pm, heavy, limit, wrap }
+        })
+        .boxed()
+}
+
+pub const SLOW_CAP: u64 = 1_500_000;
+
+fn check_slow(c: &SlowCase) -> CheckResult {
+    let mut out = Outcome::default();
+    let periods: Vec<u64> = match c.base {
+        SlowBase::Pow2(k) => (1..=k.clamp(1, 14)).map(|i| 1u64 << i).collect(),
+        SlowBase::Sylvester => vec![2, 3, 7, 43],
+    };
+    let m = c.mult.clamp(1, 3);
+    let mk = |arr: ArrSpec, wcet: u64| TaskSpec { arr, wcet, prio: 0, deadline: 1, segs: vec![wcet], max_np: 1 };
+    let mut ts: Vec<TaskSpec> = periods
+        .iter()
+        .enumerate()
+        .map(|(i, p)| {
+            let t = p * m;
+            let j = t * c.jitter_pm.get(i).copied().unwrap_or(0).min(1000) / 1000;
+            mk(if j == 0 { ArrSpec::Periodic { t } } else { ArrSpec::Sporadic { t, j } }, m)
+        })
+        .collect();
+    ts.push(mk(ArrSpec::Sporadic { t: 10_000_000, j: 0 }, c.heavy.max(1)));
+    let b = guard(|| build_tasks(&ts)).map_err(|e| format!("constructing the task set panicked: {}", e))?;
+    let total = |x: u64| b.rbfs.iter().map(|r| su(r.service_needed(d(x)))).sum::<u64>();
+    // naive evaluation: L by linear scan, every offset in [0, L)
+    let (l_huge, iterations) = guard_with_budget(u64::MAX, || {
+        let l = (1..=SLOW_CAP).find(|x| *x >= total(*x));
+        // how many steps the standard iteration x <- total(x) from 1 needs (for the non-triviality rule only)
+        let mut x = 1u64;
+        let mut it = 0u64;
+        while x <= SLOW_CAP {
+            let y = total(x);
+            if y <= x {
+                break;
+            }
+            x = y;
+            it += 1;
+        }
+        (l, it)
+    })
+    .map_err(|e| format!("evaluating the RBFs panicked: {}", e))?;
+    let limit = match (&c.limit, l_huge) {
+        (LimitMode::AtL, Some(l)) => l,
+        (LimitMode::BelowL, Some(l)) => l - 1,
+        _ => SLOW_CAP,
+    };
+    let exp: Option<u64> = match l_huge {
+        Some(l) if l <= limit => guard_with_budget(u64::MAX, || (0..l).map(|a| total(a + 1).saturating_sub(a)).max().unwrap_or(0)).ok(),
+        _ => None,
+    };
+    let got = guard_with_budget(u64::MAX, || run_analysis(&ts, &b, Analysis::Fifo, 0, limit, None, c.wrap))
+        .map_err(|e| format!("fifo panicked: {} (limit {})", e, limit))?;
+    let got = Res::from(got);
+    let same = match (&got, exp) {
+        (Res::Ok(a), Some(b)) => *a == b,
+        (Res::Ok(_), None) | (_, Some(_)) => false,
+        _ => true,
+    };
+    if !same {
+        return Err(format!(
+            "fifo returned {:?} but naive evaluation (L = {:?} by linear scan, every offset in [0,L), limit {}) gives {:?}; the iteration from 1 needs {} steps",
+            got, l_huge, limit, exp, iterations
+        ));
+    }
+    out.inner = l_huge.unwrap_or(SLOW_CAP);
+    out.nontrivial = iterations > 10_000;
+    out.label_if(iterations > 10_000, "iteration-steps>10^4");
+    out.label_if(iterations > 30_000, "iteration-steps>3*10^4");
+    out.label_if(exp.is_none(), "err");
+    out.label_if(l_huge == Some(limit), "limit=L");
+    Ok(out)
+}
+
 fn exhaustive(tier: Tier, _seed: u64) -> ExtraResult {
     let mut r = ExtraResult { exhaustive: true, replay_subcheck: "equations", ..Default::default() };
     // (period, jitter, wcet, deadline, last-segment selector)
@@ -443,7 +557,7 @@ fn exhaustive(tier: Tier, _seed: u64) -> ExtraResult {
 pub fn def() -> PropertyDef {
     PropertyDef {
         id: "C06",
-        rule: "generated: task sets of 1-4 tasks (Periodic, Sporadic with J up to 4T, plain and extrapolating bursty delta-min curves incl. plateaus, jittered / propagated / summed models; T <= 60 quick / 150 thorough, WCET <= 9, equal priorities allowed, relative deadlines up to 3T, segment vectors, floating region lengths), the analysed task, one of the nine analyses, an arbitrary blocking bound, the way the RBFs are wrapped (plain / boxed / references; FIFO: Slice / Aggregate), and a limit mode (huge, = L, L-1, = max AF, max AF - 1, absolute). Oracle: the RBFs are tabulated as black boxes from the very objects handed to the analysis; L = least x in [1,limit] with x >= total(x); for EVERY offset A in [0,L) AF = least x with x >= rhs_A(x) by linear scan; result = max_A (AF -. A) + remaining cost; Err{offset 0, limit} iff some least solution does not exist within the limit. Exact equality of Ok/Err and value. Second sub-check (large values, where the naive scan cannot run): for the analyses whose equations contain no epsilon-sized constant (preemptive FP, floating FP with explicit blocking, preemptive EDF, FIFO) every time value incl. blocking and limit is multiplied by 10^3 / 65537 / 10^7 / 2^32+15 and the result must scale by exactly that factor (Err iff Err). Non-trivial: Err, or L larger than the analysed task's WCET (interference or blocking present, so non-step offsets are scanned). Distinct by case JSON.".into(),
+        rule: "generated: task sets of 1-4 tasks (Periodic, Sporadic with J up to 4T, plain and extrapolating bursty delta-min curves incl. plateaus, jittered / propagated / summed models; T <= 60 quick / 150 thorough, WCET <= 9, equal priorities allowed, relative deadlines up to 3T, segment vectors, floating region lengths), the analysed task, one of the nine analyses, an arbitrary blocking bound, the way the RBFs are wrapped (plain / boxed / references; FIFO: Slice / Aggregate), and a limit mode (huge, = L, L-1, = max AF, max AF - 1, absolute). Oracle: the RBFs are tabulated as black boxes from the very objects handed to the analysis; L = least x in [1,limit] with x >= total(x); for EVERY offset A in [0,L) AF = least x with x >= rhs_A(x) by linear scan; result = max_A (AF -. A) + remaining cost; Err{offset 0, limit} iff some least solution does not exist within the limit. Exact equality of Ok/Err and value. Second sub-check (large values, where the naive scan cannot run): for the analyses whose equations contain no epsilon-sized constant (preemptive FP, floating FP with explicit blocking, preemptive EDF, FIFO) every time value incl. blocking and limit is multiplied by 10^3 / 65537 / 10^7 / 2^32+15 and the result must scale by exactly that factor (Err iff Err). Third sub-check (slow convergence): FIFO over unit-cost tasks with periods 2,4,..,2^k (k = 11..14) or 2,3,7,43 (utilisation 1 - 2^-k resp. 1 - 1/1806; costs and periods times 1..3; generated jitter), plus one heavy task, so that L is 10^4..7*10^5 and the standard iteration from 1 needs 10^3..5*10^4 steps; limits huge / = L / L-1; oracle: L by linear scan over the RBF objects, max over EVERY offset in [0,L) of total(A+1) - A; non-trivial there: the iteration needs more than 10^4 steps. Non-trivial: Err, or L larger than the analysed task's WCET (interference or blocking present, so non-step offsets are scanned). Distinct by case JSON.".into(),
         assumptions: vec![
             "the analysed task releases at least one job (number_arrivals(1) >= 1); limits >= 1".into(),
             "last segment <= WCET, segments >= 1".into(),
@@ -452,6 +566,7 @@ pub fn def() -> PropertyDef {
         subchecks: vec![
             subcheck("equations", (1500, 60_000), strategy, check).with_decoder(decode, check),
             subcheck("scale-equivariance", (1500, 50_000), scale_strategy, check_scale),
+            subcheck("slow-convergence", (40, 1500), slow_strategy, check_slow),
         ],
         extra: Some(Box::new(exhaustive)),
     }
